@@ -3,6 +3,8 @@ import os
 from . import tables as T
 from . import gen as G
 from . import c08facts
+from . import order as O
+from .order import view_order
 
 ID = 'C08'
 HERE = os.path.dirname(os.path.abspath(__file__))
@@ -39,7 +41,6 @@ LEVEL_NOTE = ('PARTIAL by design: equality of whole applications is validated (m
               'detection (distinct discriminators). The executed order is the C04 model, compared with schedule per case.')
 
 _state = {'sites': None, 'preds': None}
-MAX_ORDER = 1 << 30
 
 
 def facts(src):
@@ -47,6 +48,8 @@ def facts(src):
     _state['sites'] = [s[0] for s in r['sites']]
     _state['phase'] = {s[0]: s[1] for s in r['sites']}
     _state['preds'] = r['preds']
+    O.STATE['preds'] = list(r['preds'])
+    O.STATE['weights'] = list(r['weights'])
     return {'coq': r['coq'], 'summary': r['summary'], 'problems': r['problems']}
 
 
@@ -61,26 +64,6 @@ def _sites():
 
 
 # ------------------------------------------------------------ static expansion of statements into actions
-def view_order(st, customs):
-    names = list(_state['preds']) + customs
-    used = []
-    if st.get('method'):
-        used.append('request_method')
-    if st.get('param'):
-        used.append('request_param')
-    if st.get('vp') is not None:
-        used.append('vp')
-    if st.get('vq') is not None:
-        used.append('vq')
-    score = 0
-    n = 0
-    for u in used:
-        if u in names:
-            score |= 1 << (names.index(u) + 1)
-            n += 1
-    return (MAX_ORDER - score) // (n + 1)
-
-
 def expand(st, customs):
     """-> list of actions {site, disc, reads, dreads, writes, acc} in creation order"""
     k = st['k']
@@ -99,9 +82,11 @@ def expand(st, customs):
         rt = vst.get('route') if vst['k'] == 'view' else '__%s/' % vst['name']
         if rt:
             reads.append(('riface', rt))
-        disc = ('view', triad(vst), vst.get('method'), vst.get('param'), vst.get('vp'), vst.get('vq'))
+        from .world import slotkey
+        disc = ('view', triad(vst), vst.get('method'), vst.get('param'), vst.get('vp'), vst.get('vq'),
+                vst.get('xhr'), vst.get('header'), vst.get('accept'))
         return [A('add_view#0', disc, reads=reads, dreads=[('preds', 'view'), ('derivers', '')],
-                  writes=[('view', triad(vst))], acc=view_order(vst, customs))]
+                  writes=[('view', slotkey(vst))], acc=view_order(vst, customs))]
 
     if k == 'raw':
         from .world import RAW_SITES
@@ -184,6 +169,8 @@ def _tree(body):
         for it in items:
             if isinstance(it, int):
                 places.append([it, me])
+            elif it == 'commit':
+                continue
             else:
                 nodes.append([me, 'harness.c08.world:inc_%d' % (len(nodes) + 1)])
                 go(it['inc'], len(nodes))
@@ -211,7 +198,15 @@ def to_wire(case):
         for sid, node in places:
             for j, a in enumerate(expand(stmts[sid], customs)):
                 pl.append([sid * 8 + j, node, a['acc']])
-        vs.append([nodes, pl])
+        # commit markers (top level only): number of actions declared before each
+        cuts, n = [], 0
+        for it in body:
+            if it == 'commit':
+                cuts.append(n)
+                n = 0
+            else:
+                n += sum(len(acts[i]) for i in G.flatten([it]))
+        vs.append([nodes, pl, cuts])
     return [ws, [num[k] for k in keys], vs]
 
 
@@ -294,6 +289,8 @@ def valid(case):
                 return False
             if len(set(fl)) != len(fl) or not all(i in ids for i in fl) or not _shadows_below(body, shadow):
                 return False
+            if not _structure_ok(case, body, shadow):
+                return False
             sig = [[i for i in fl if cls[i] == c and i not in shadow] for c in ('route', 'sub', 'tween')]
             if base is None:
                 base = sig
@@ -302,6 +299,114 @@ def valid(case):
         return isinstance(case.get('probes'), list)
     except Exception:
         return False
+
+
+def _deps(case):
+    """statement id -> (keys read, keys written) from the static expansion"""
+    customs = _customs(case)
+    out = {}
+    for st in case['stmts']:
+        rd, wr = set(), set()
+        for a in expand(st, customs):
+            rd |= set(a['reads']) | set(a['dreads'])
+            wr |= set(a['writes'])
+        out[st['id']] = (rd, wr)
+    return out
+
+
+def closed_prefix(case, first, shadow=()):
+    """may the statements [first] be committed before the rest is even declared without changing the application?
+    yes when (a) every statement writing a key that a member reads is a member, and (b) for the ordered containers
+    whose order the variants keep (routes, subscribers, tweens) the members are an initial segment."""
+    deps = _deps(case)
+    first = set(first)
+    for i in first:
+        for j, (_, wr) in deps.items():
+            if j not in first and j not in shadow and deps[i][0] & wr:
+                return False
+    cls = {s['id']: G.SEQ_KINDS.get(s['k']) for s in case['stmts']}
+    order = [s['id'] for s in case['stmts']]
+    for c in ('route', 'sub', 'tween'):
+        members = [i for i in order if cls[i] == c and i not in shadow]
+        flags = [i in first for i in members]
+        if flags != sorted(flags, reverse=True):
+            return False
+    return True
+
+
+def _structure_ok(case, body, shadow):
+    """commit markers only at top level and only after a closed prefix; route_prefix includes only around 'prefix' routes"""
+    stmts = {s['id']: s for s in case['stmts']}
+
+    def inner(items, inside):
+        for it in items:
+            if it == 'commit':
+                return False
+            if isinstance(it, dict):
+                pfx = bool(it.get('prefix'))
+                if pfx and inside:
+                    return False
+                if pfx or inside:
+                    for i in G.flatten(it['inc']):
+                        st = stmts[i]
+                        if i not in shadow and (st['k'] == 'static' or (st['k'] == 'route' and not st.get('prefix'))):
+                            return False
+                if not inner(it['inc'], inside or pfx):
+                    return False
+            elif not isinstance(it, int):
+                return False
+        return True
+    seen = []
+    for it in body:
+        if it == 'commit':
+            if shadow or not closed_prefix(case, seen, shadow):
+                return False
+        elif isinstance(it, dict):
+            if not inner([it], False):
+                return False
+            seen += G.flatten([it])
+        elif isinstance(it, int):
+            seen.append(it)
+        else:
+            return False
+    return True
+
+
+def add_commits(rng, case):
+    """turn some variants into programs with an intermediate commit() after a closed prefix"""
+    if any('shadow_of' in s for s in case['stmts']):
+        return case
+    deps = _deps(case)
+    ids = [s['id'] for s in case['stmts']]
+    cls = {s['id']: G.SEQ_KINDS.get(s['k']) for s in case['stmts']}
+    variants = list(case['variants'])
+    for j in range(1, len(variants)):
+        if rng.random() > 0.35:
+            continue
+        first = set(rng.sample(ids, rng.randint(1, max(1, len(ids) // 2))))
+        changed = True
+        while changed:
+            changed = False
+            for i in list(first):
+                for k, (_, wr) in deps.items():
+                    if k not in first and deps[i][0] & wr:
+                        first.add(k)
+                        changed = True
+            for c in ('route', 'sub', 'tween'):
+                members = [i for i in ids if cls[i] == c]
+                last = max([n for n, i in enumerate(members) if i in first], default=-1)
+                for i in members[:last + 1]:
+                    if i not in first:
+                        first.add(i)
+                        changed = True
+        if len(first) == len(ids):
+            continue
+        fl = G.flatten(variants[j])
+        a = [i for i in fl if i in first]
+        b = [i for i in fl if i not in first]
+        nestit = (lambda seq: G.add_prefixes(rng, G.nest(rng, seq), case['stmts'])) if rng.random() < 0.6 else (lambda seq: seq)
+        variants[j] = nestit(a) + ['commit'] + nestit(b)
+    return dict(case, variants=variants)
 
 
 def _shadows_below(body, shadow):
@@ -314,7 +419,7 @@ def _shadows_below(body, shadow):
             if isinstance(it, int):
                 if it in shadow and shadow[it] not in owners:
                     ok[0] = False
-            else:
+            elif isinstance(it, dict):
                 go(it['inc'], owners | set(i for i in here if i not in shadow))
     go(body, set())
     return ok[0]
@@ -332,8 +437,10 @@ def shrinks(case):
                 if isinstance(it, int):
                     if it != i:
                         out.append(it)
+                elif isinstance(it, dict):
+                    out.append(dict(it, inc=drop(it['inc'])))
                 else:
-                    out.append({'inc': drop(it['inc'])})
+                    out.append(it)
             return out
         if any(s.get('shadow_of') == i for s in S):
             continue
@@ -355,7 +462,8 @@ def shrinks(case):
             yield dict(case, probes=P[:j] + P[j + 1:])
     # drop optional attributes of statements
     for n, st in enumerate(S):
-        for a in ('perm', 'renderer', 'csrf', 'dopt', 'dopt2', 'factory', 'method', 'param', 'vp', 'vq', 'ctx', 'rp', 'ret'):
+        for a in ('perm', 'renderer', 'csrf', 'dopt', 'dopt2', 'factory', 'method', 'param', 'vp', 'vq', 'ctx', 'rp', 'ret',
+                  'xhr', 'header', 'accept'):
             if a in st and not (a == 'ret' and st.get('renderer')):
                 st2 = {k: v for k, v in st.items() if k != a}
                 if a == 'renderer':
@@ -543,22 +651,29 @@ def classify(case, obs, spec):
         return 'C08-custom-deriver-nesting-follows-registration-order'
     # (2) views of one slot with equal predicate order: the first declared answers
     if regdiff and all(k.startswith('view:') for k in regdiff):
-        from .world import triad
+        from .world import slotkey
         customs = _customs(case)
+        kinds_differ = False
         for k in regdiff:
-            members = [s for s in views.values() if 'view:' + triad(s) == k]
-            orders = [view_order(s, customs) for s in members]
+            members = [s for s in views.values() if 'view:' + slotkey(s) == k]
+            orders = [(view_order(s, customs, True), O.pred_kinds(s)) for s in members]
             lists = [tuple(v['regs'].get(k, [])) for v in obs['variants']]
             if not all(sorted(l) == sorted(lists[0]) for l in lists):
                 return None
             # the variants may only differ in the order of members with equal predicate order
-            o = {s['id']: view_order(s, customs) for s in members}
+            o = {s['id']: view_order(s, customs, True) for s in members}
             for l in lists:
                 if [o[i] for i in l] != sorted(o[i] for i in l):
                     return None
-            if len(set(orders)) == len(orders):
-                return None
-        return 'C08-equal-order-views-answer-by-declaration-order'
+            if len(set(x[0] for x in orders)) == len(orders):
+                return None                         # all orders differ: not a tie of the documented scheme
+            # members that swap places must tie; same kinds = the first finding, different kinds = the arithmetical one
+            for a in range(len(orders)):
+                for b in range(a + 1, len(orders)):
+                    if orders[a][0] == orders[b][0] and orders[a][1] != orders[b][1]:
+                        kinds_differ = True
+        return ('C08-floor-division-gives-different-predicate-sets-one-order' if kinds_differ
+                else 'C08-equal-order-views-answer-by-declaration-order')
     return None
 
 
@@ -603,6 +718,20 @@ def kinds(case, obs):
         ks.append('forward-reference')
     if any(b != G.flatten(b) for b in case['variants']):
         ks.append('nested-includes')
+    if any('commit' in b for b in case['variants']):
+        ks.append('intermediate-commit')
+    def _pfx(items):
+        for it in items:
+            if isinstance(it, dict):
+                if it.get('prefix') and any(S[i]['k'] == 'route' for i in G.flatten(it['inc'])):
+                    return True
+                if _pfx(it['inc']):
+                    return True
+        return False
+    if any(_pfx(b) for b in case['variants']):
+        ks.append('route-prefix-include')
+    if any(s.get('accept') for s in case['stmts']):
+        ks.append('has-accept-view')
     st = set()
     for q in obs['probes']:
         if isinstance(q, list):
@@ -626,8 +755,9 @@ def describe(case):
 
 
 def generate(rng, tier, n):
+    _sites()
     for _ in range(n):
-        yield G.gen_case(rng, tier)
+        yield add_commits(rng, G.gen_case(rng, tier))
 
 
 def targeted(broken, disagreements, rng):
